@@ -116,9 +116,18 @@ STATES = [[s] for s in SINGLES] + DOUBLES
 ODD_STATES = [['0'], ['56'], ['1;31'], ['0', '31'], ['31', '0'], ['56', '4']]
 
 
-def bridge_value(A, B, layout):
+# settings of other effect groups on the whole text: with them a transition is cheaper to write as a difference than as
+# reset + everything again, so the optimiser's difference path is taken also when only one effect changes
+BALLAST = ['44', '9', '7', '26']
+
+
+def bridge_value(A, B, layout, ballast=False):
     sa = [{'k': 'aset', 'v': x} for x in A]
     sb = [{'k': 'aset', 'v': x} for x in B]
+    if ballast:
+        v = bridge_value(A, B, layout)
+        v['ctor']['r'] = [{'s': [{'k': 'aset', 'v': x} for x in BALLAST], 'a': 0, 'b': None}] + v['ctor']['r']
+        return v
     if layout == 0:
         r = [{'s': sa, 'a': 0, 'b': 1}, {'s': sb, 'a': 1, 'b': 2}]
         t = 'ab'
@@ -139,6 +148,7 @@ def enum_bridges(tier):
         for B in STATES:
             for layout in range(4):
                 yield {'A': A, 'B': B, 'layout': layout}
+                yield {'A': A, 'B': B, 'layout': layout, 'ballast': True}
     for A in STATES + ODD_STATES:
         for B in ODD_STATES:
             for layout in range(4):
@@ -149,7 +159,7 @@ def enum_bridges(tier):
 
 def eval_bridge(case):
     o = Outcome()
-    v = Interp().build(bridge_value(case['A'], case['B'], case['layout']))
+    v = Interp().build(bridge_value(case['A'], case['B'], case['layout'], case.get('ballast', False)))
     t, per = v.base_str, per_char(v)
     check_render(o, v, t, per)
     o.nontrivial = case['A'] != case['B']
@@ -163,6 +173,6 @@ def strat():
 SUBS = [
     Sub('render', eval_render, strategy=strat, quick=500, thorough=8000),
     Sub('bridge', eval_bridge, enumerate=enum_bridges,
-        rule='all ordered pairs of %d style states x 4 layouts x 8 flag combinations' % len(STATES),
+        rule='all ordered pairs of %d style states x 4 layouts x {alone, on top of four other-group settings} x 8 flag combinations' % len(STATES),
         exhaustive_note='every ordered pair of style states from the pool (all effect groups: apply, clear, 256/rgb colour, two-setting states; plus reset/unknown/multi-group companions) in 4 layouts'),
 ]
